@@ -1,6 +1,7 @@
 """C01 - ELF file, section and program headers are decoded exactly as encoded."""
 import io
 
+from vf import usage
 from vf.enc import elf as W
 from vf import registry
 from vf.choose import RndChooser, composite_from
@@ -308,6 +309,19 @@ def run_case(ctx, case):
                 elif sec is not None:
                     ctx.fail('lookup|get_section_by_name|absent', 'name %r -> %r' % (nm, sec), case)
 
+    # --- the enumerations consumed step by step while the stream is moved and a nested enumeration runs between two steps
+    if nsec and len(idxs) == nsec and all_ok and valid and has_names and nsec <= 60:
+        try:
+            stepped = usage.stepwise(ef.iter_sections, usage.disturber(ef.stream, ef.iter_sections, (lambda: ef.get_section_by_name('.text'), ef.num_segments)))
+            if [(x.name, dict(x.header)) for x in stepped] != [(seen[i].name, dict(seen[i].header)) for i in range(nsec)]:
+                ctx.fail('iter_sections|interleaved-with-other-stream-use', '%d sections; a step-by-step walk with other stream users in between yields %d (or different ones)' % (nsec, len(stepped)), case)
+            stepped = usage.stepwise(ef.iter_segments, usage.disturber(ef.stream, ef.iter_segments, (ef.num_sections,)))
+            if len(stepped) != R['phnum'] or any(dict(x.header)['p_offset'] != R['ph'][j]['p_offset'] for j, x in enumerate(stepped)):
+                ctx.fail('iter_segments|interleaved-with-other-stream-use', '%d segments; a step-by-step walk yields %d (or different ones)' % (R['phnum'], len(stepped)), case)
+            ctx.count('stepwise.enumerations')
+        except Exception as e:  # noqa
+            if not m.get('invalid_links'):
+                ctx.fail_exc('iter|interleaved-with-other-stream-use', e, case)
     # --- type filters of the enumerations (only where every section constructs)
     if nsec and len(idxs) == nsec and all_ok and valid:
         by_type = {}
